@@ -80,6 +80,7 @@ func ZZ_C10_Vars() {
 	cliv, clival := zzVal("cli", false)
 
 	var merged *ast.Task
+	stmtAlt, stmtAltPresent := "", false
 	if included {
 		call.Task = "ns:t"
 		inc := &ast.Taskfile{Version: ver, Vars: ast.NewVars(), Env: ast.NewVars(), Tasks: ast.NewTasks()}
@@ -105,6 +106,15 @@ func ZZ_C10_Vars() {
 			// root includes `outer` (its include statement may carry an unrelated var),
 			// outer includes the task's file with the include statement above
 			outer := &ast.Taskfile{Version: ver, Vars: ast.NewVars(), Env: ast.NewVars(), Tasks: ast.NewTasks()}
+			// the intermediate Taskfile may define the name too: still "variables of the
+			// included Taskfile" for the root's include (below the task's own file, above
+			// every include statement)
+			hOuterFile := zz.Bool("def.outerfile")
+			ofv, ofval := zzVal("outerfile", false)
+			if hOuterFile {
+				outer.Vars.Set(zzVarName, ofv)
+			}
+			sites = append(sites[:3], append([]site{{"intermediate-taskfile", hOuterFile, ofval}}, sites[3:]...)...)
 			if err := outer.Merge(inc, include); err != nil {
 				zz.Assert(false, "merge-must-not-fail")
 				return
@@ -112,6 +122,17 @@ func ZZ_C10_Vars() {
 			outerInclude := &ast.Include{Namespace: "o", AdvancedImport: true, Vars: ast.NewVars()}
 			if zz.Bool("outer_include_has_unrelated_var") {
 				outerInclude.Vars.Set("UNRELATED", ast.Var{Value: "u"})
+			}
+			// ... and so may the root's include statement (which of the two include
+			// statements wins over the other is not documented: either is accepted)
+			hOuterStmt := zz.Bool("def.outerstmt")
+			osv, osval := zzVal("outerstmt", false)
+			if hOuterStmt {
+				outerInclude.Vars.Set(zzVarName, osv)
+			}
+			stmtAlt, stmtAltPresent = osval, hOuterStmt
+			if !hIncStmt { // the outer statement takes the inner one's place in the order
+				sites[len(sites)-1] = site{"include-statement", hOuterStmt, osval}
 			}
 			if err := root.Merge(outer, outerInclude); err != nil {
 				zz.Assert(false, "merge-must-not-fail")
@@ -165,7 +186,8 @@ func ZZ_C10_Vars() {
 	}
 	if wantSite != "" {
 		gs, _ := got.Value.(string)
-		zz.Assert(found && gs == want, "precedence/"+wantSite+"-wins")
+		okAlt := wantSite == "include-statement" && stmtAltPresent && gs == stmtAlt
+		zz.Assert(found && (gs == want || okAlt), "precedence/"+wantSite+"-wins")
 	} else {
 		zz.Assert(!found, "undefined-stays-undefined")
 	}
